@@ -132,7 +132,10 @@ TABLE = [
     # ---- C02 / C03 / C04 / C14: instant <-> civil and zone lookups read the whole instant / datetime
     (("C02",), "tz::offset::Offset::to_datetime", "each", "ret", TS("timestamp") + ["self.span"], "civil = decomposition of t + o"),
     (("C02",), "tz::offset::Offset::to_timestamp", "each", "ret", DT("dt") + ["self.span"], "instant = civil - o"),
-    (("C03",), "tz::timezone::TimeZone::to_offset", "each", "ret", ["timestamp.second", "self.repr"], "the offset in force at this instant in this zone"),
+    (("C03",), "tz::timezone::TimeZone::to_offset", "each", "ret", TS("timestamp") + ["self.repr"],
+     "the offset in force at this instant in this zone; transition instants are whole seconds, so before the epoch the fraction decides the side"),
+    (("C03",), "tz::timezone::TimeZone::to_offset_info", "each", "ret", TS("timestamp") + ["self.repr"],
+     "offset, DST flag and abbreviation in force at this instant in this zone (same reasoning as to_offset)"),
     (("C03", "C14"), "tz::tzif::Tzif::<STR, ABBREV, TYPES, TIMESTAMPS, STARTS, ENDS, INFOS>::to_local_time_type", "each", "ret", TS("timestamp"),
      "pre-epoch instants floor: the fraction decides which side of a transition"),
     (("C03", "C14"), "tz::tzif::Tzif::<STR, ABBREV, TYPES, TIMESTAMPS, STARTS, ENDS, INFOS>::previous_transition", "each", "ret", TS("ts"),
@@ -158,6 +161,7 @@ TABLE = [
 # path adds an alternative; a dropped operand turns the main alternative into one - either way the count is exceeded.
 EXEMPT = {
     "tz::timezone::TimeZone::to_offset": (3, ["self.repr"], "UTC / unknown / fixed-offset zones have one offset for every instant"),
+    "tz::timezone::TimeZone::to_offset_info": (3, ["self.repr"], "UTC / unknown / fixed-offset zones have one offset, flag and abbreviation for every instant"),
     "shared::posix::<impl shared::PosixTimeZone<ABBREV>>::to_offset": (1, ["self.dst"], "a POSIX zone without a DST rule has one offset"),
     "shared::posix::<impl shared::PosixTimeZone<ABBREV>>::to_offset_info": (1, ["self.dst"], "a POSIX zone without a DST rule has one offset"),
     "timestamp::Timestamp::checked_add_span": (1, ["span.sign", "span.units"], "adding the zero span returns self"),
